@@ -235,7 +235,7 @@ func (r *multiRunner) Step(line string) []string {
 			r.lastDec = obs
 			r.oracleRoundTrip(m, byts, dec, obs)
 			valid, lexical := multiValid(m)
-			return "m=" + hexOrDash(byts) + " u=" + obs + " wf=" + b01(valid) + " lex=" + b01(valid && lexical)
+			return "m=" + hexOrDash(byts) + " u=" + obs + " wf=" + mvalB01(valid) + " lex=" + mvalB01(valid && lexical)
 		})}
 
 	case "unm", "unmv":
